@@ -15,14 +15,17 @@ package token
 //@  && (forall x any :: unwrapped(x) && x is *invocation.tokenPayloadModel ==> x.(*invocation.tokenPayloadModel) != nil)
 //@
 //@ func fromIPLD
+//@   ensures [C09] total: true
 //@   requires node != nil && modelsWF()
 //@   use node_sizes, node_map_children
 //@   ensures [C06,C10] typed: result1 == nil ==> genericVerified(node, result0)
 //@ func Decode
+//@   ensures [C09] total: true
 //@   requires decFn != nil && modelsWF()
 //@   use node_sizes, node_map_children
 //@   ensures [C06,C10] typed: result1 == nil ==> genericVerified(decodeWith(decFn, bytes(b)), result0)
 //@ func FromSealed
+//@   ensures [C09] total: true
 //@   requires modelsWF()
 //@   use node_sizes, node_map_children
 //@   ensures [C06,C10] typed: result2 == nil ==> genericVerified(decodeWith(dagcbor.Decode, bytes(data)), result0)
@@ -33,6 +36,7 @@ package token
 //@   requires r != nil && decFn != nil && modelsWF()
 //@   assigns anything
 //@ func FromSealedReader
+//@   ensures [C09] total: true
 //@   requires r != nil && modelsWF()
 //@   use node_sizes, node_map_children
 //@   ensures [C18] nofault: result2 == nil ==> failed(r) == old(failed(r))
